@@ -72,6 +72,14 @@ def run(ctx):
         ctx.broken.append('correspondence C11 on generated trees (model vs Check with BuiltinUntrustedInputs swapped): %d of %d cases disagree' % (len(tbad), len(tterms)))
         if not bad:
             ctx.first_disagreement = {'case_index': tbad[0], 'input': json.loads(tsrcs[tbad[0]]), 'model_term': tterms[tbad[0]][:4000]}
+    vterms = vf.read_lines(os.path.join(ctx.out, 'cases_visit.txt'))
+    vbad, verr = vf.coq_cases(ctx, 'C11V', ['Expr.Untrusted', 'Expr.UntrustedObs'], 'expr', 'run_c11_visit', vterms, shard=600, ordered=True)
+    if verr:
+        ctx.broken.append('correspondence cases (automaton alone) did not evaluate: ' + verr[-400:])
+    if vbad:
+        ctx.broken.append('correspondence C11 automaton alone (model on_enter/on_leave vs UntrustedInputChecker callbacks driven by VisitExprNode): %d of %d cases disagree' % (len(vbad), len(vterms)))
+        if not bad and not tbad:
+            ctx.first_disagreement = {'case_index': vbad[0], 'model_term': vterms[vbad[0]][:4000]}
     fails = list(s['oracle_failures'])
     if bad:
         ctx.broken.append('correspondence C11 (model automaton+traversal vs ExprSemanticsChecker.Check): %d of %d cases disagree' % (len(bad), len(terms)))
@@ -81,7 +89,7 @@ def run(ctx):
         'obligations': nthm, 'discharged': ndis,
         'evaluations': s['evaluations'], 'distinct_nontrivial': s['distinct_nontrivial'],
         'rule': s['rule'], 'samples': s['samples'], 'distribution': s['distribution'],
-        'traces_validated_against_impl': len(terms) + len(tterms), 'disagreements': len(bad) + len(tbad),
+        'traces_validated_against_impl': len(terms) + len(tterms) + len(vterms), 'disagreements': len(bad) + len(tbad) + len(vbad),
         'exhaustive': ctx.thorough(),
         'exhaustive_what': 'thorough: every spelling of every documented path of length <= 5, all one-hole x one-hole embeddings of the representative atoms' if ctx.thorough() else 'quick: seeded sample of the depth-2 embeddings',
         'extra': s.get('extra', {}),
